@@ -140,6 +140,31 @@ fn main() {
                       (Operand::LiteralBit32(7), None), (Operand::LiteralExtInstInteger(7), None), (Operand::LiteralString("x".into()), None)] {
         if o.id_ref_any() != want { bad += 1; println!("MISMATCH id_ref_any {:?}", o); }
     }
+    for v in [0u32, 1, 0x7fff_ffff, u32::MAX] {
+        for o in [Operand::IdRef(v), Operand::IdScope(v), Operand::IdMemorySemantics(v)] {
+            if o.id_ref_any() != Some(v) { bad += 1; println!("MISMATCH id_ref_any {:?} -> {:?}", o, o.id_ref_any()); }
+            let mut o2 = o.clone();
+            match o2.id_ref_any_mut() { Some(r) => { *r = r.wrapping_add(5); } None => { bad += 1; println!("MISMATCH id_ref_any_mut {:?} -> None", o); } }
+            if o2.id_ref_any() != Some(v.wrapping_add(5)) { bad += 1; println!("MISMATCH rewriting the id of {:?} gave {:?}", o, o2); }
+        }
+        for o in [Operand::LiteralBit32(v), Operand::LiteralExtInstInteger(v)] {
+            let mut o2 = o.clone();
+            if o.id_ref_any().is_some() || o2.id_ref_any_mut().is_some() { bad += 1; println!("MISMATCH {:?} reports an id", o); }
+        }
+    }
+    // rewriting an id changes exactly the corresponding word of the assembled instruction
+    {
+        use rspirv::binary::Assemble;
+        let mut i = rspirv::dr::Instruction::new(spirv::Op::AtomicLoad, Some(1), Some(2), vec![Operand::IdRef(0), Operand::IdScope(0), Operand::IdMemorySemantics(0)]);
+        let before = i.assemble();
+        for k in 0..3 {
+            let mut j = i.clone();
+            if let Some(r) = j.operands[k].id_ref_any_mut() { *r = 77; }
+            let after = j.assemble();
+            let diff: Vec<usize> = (0..before.len().max(after.len())).filter(|x| before.get(*x) != after.get(*x)).collect();
+            if diff != vec![3 + k] { bad += 1; println!("MISMATCH rewriting operand {} of AtomicLoad changed words {:?}", k, diff); }
+        }
+    }
     println!("checked, {} mismatches", bad);
 }
 """
